@@ -3,23 +3,8 @@
    by the block of statements a pass derives from it. *)
 From Coq Require Import List ZArith NArith String Ascii Bool Arith Lia Permutation.
 Import ListNotations.
-From Dagrt Require Import Lang LangProofs Sched Transform TransformSem TransformBasics TransformHoist
+From Dagrt Require Import Lang LangProofs Sched Transform TransformSem TransformSide TransformBasics TransformHoist
      TransformSpec TransformMappers.
-
-(* every variable a statement kind mentions *)
-Definition kvars (k : skind) : list var :=
-  match k with
-  | KAssign x sub rhs loops =>
-      x :: match sub with Some ie => vars ie | None => [] end ++ vars rhs
-        ++ flat_map (fun l => fst (fst l) :: vars (snd (fst l)) ++ vars (snd l)) loops
-  | KCall xs _ args kw => xs ++ flat_map vars args ++ flat_map vars (map snd kw)
-  | KYield _ _ time e => vars e ++ vars time
-  | _ => []
-  end.
-Definition svars (s : tstmt) : list var := vars (tcond s) ++ kvars (tkd s).
-
-Definition loopfree (k : skind) : bool :=
-  match k with KAssign _ _ _ (_ :: _) => false | _ => true end.
 
 Definition nocrash (o : outcome) : Prop :=
   match o with OUserExn | OCrash => False | _ => True end.
